@@ -139,6 +139,11 @@ def run_schedule(ctx, rng, nthr, nops, **gen_kw):
                 if lt.state == "gotbytes":
                     mon.consumed += lt.info
             mon.observe(rig.wire)
+            lw = rig.lost_wakeup()
+            if lw is not None and not mon.problem:
+                mon.problem = ("lost-wakeup:parked-sender-not-notified",
+                               "thread %d sleeps in out_buffer_cv.wait un-notified with out_window_size=%d after %r"
+                               % (lw, rig.chan.out_window_size, op))
             reqs.append(op)
             impl.append(rig.view())
             info["ops"] += 1
@@ -252,6 +257,7 @@ def compare(ctx, pid, batches):
     for case, reqs, impl in batches:
         got = [lib_chan.normalise_model_view(x) for x in model[pos:pos + len(reqs)]]
         pos += len(reqs)
+        got = [g if i != "*" else "*" for g, i in zip(got, impl)]   # "*" = step without a model counterpart
         if got != impl:
             k = next(i for i in range(len(reqs)) if got[i] != impl[i])
             ctx.disagree("schedule-step", dict(case, at=reqs[k], index=k), got[k], impl[k])
